@@ -102,6 +102,53 @@ def rows_formula(rows):
     return z3.And(*f) if f else z3.BoolVal(True)
 
 
+def handles_distinct(spec, meth, inst):
+    """representation invariant the oracles rely on: the handles are pairwise distinct solver variables (times a
+    scale); the only sharing is the declared one (start state of the first integration interval = node state)"""
+    c = ctx()
+    groups = []
+    N, M = spec.N, spec.M
+    if spec.method in ("MS", "DC"):
+        for k in range(N + 1):
+            groups.append(("X[%d]" % k, ca.MX(meth.X[k])))
+    else:
+        groups.append(("X[0]", ca.MX(meth.X[0])))
+    for k in range(N):
+        if ca.MX(meth.U[k]).numel():
+            groups.append(("U[%d]" % k, ca.MX(meth.U[k])))
+    if spec.method == "DC":
+        for k in range(N):
+            for i in range(M):
+                Xc, Zc = ca.MX(meth.Xc[k][i]), ca.MX(meth.Zc[k][i])
+                groups.append(("Xc[%d][%d] helper states" % (k, i), Xc[:, 1:]))
+                if i > 0:
+                    groups.append(("Xc[%d][%d] start state" % (k, i), Xc[:, 0]))
+                if Zc.numel():
+                    groups.append(("Zc[%d][%d]" % (k, i), Zc))
+    seen = {}
+    bad = None
+    for label, m in groups:
+        for e in m.e:
+            if ca.isnum(e):
+                bad = "%s has a constant entry" % label
+                break
+            names = [n for n in ca._consts(e) if n in ca._SYMS]
+            if len(names) != 1:
+                bad = "%s entry %s is not one solver variable times a scale" % (label, ca._short(e))
+                break
+            if names[0] in seen:
+                bad = "%s and %s share the solver variable %s" % (seen[names[0]], label, names[0])
+                break
+            seen[names[0]] = label
+        if bad:
+            break
+    name = "%s|%s.add_variables:ensures:handles-are-distinct-solver-variables" % (inst, MOD[spec.method])
+    if bad:
+        c.fail(name, bad)
+    else:
+        c.ok(name, detail="%d scalar decision variables behind %d handles" % (len(seen), len(groups)), backend="z3")
+
+
 def check_nlp(spec, parts=("dynamics", "placement", "frame", "objective"), inst=None):
     """run the real pipeline on the model and record the obligations of `parts`"""
     c = ctx()
@@ -124,6 +171,8 @@ def check_nlp(spec, parts=("dynamics", "placement", "frame", "objective"), inst=
         c.fail("%s|%s.add_constraints:raises:%s" % (inst, MOD[spec.method], reject), "specification silently transcribed; the method cannot represent it and must reject it")
         return None
     opti = spec.opti
+    if "dynamics" in parts:
+        handles_distinct(spec, meth, inst)
     orc = Oracle(spec, meth).expected()
     emitted = nlp.emitted_rows(opti)
     expected = nlp.oracle_rows(orc)
